@@ -751,12 +751,24 @@ def solvec(repo, out):
                      isinstance(st.targets[0], (ast.Name, ast.Attribute)) and _own_linvec(st.value)]
             # role variables: targets that some mode test binds (a name that is bound to one vector in both
             # modes everywhere is a plain alias of that vector, e.g. d_outputs = system._doutputs)
+            def _modesel(st):
+                return isinstance(st.value, ast.IfExp) and is_mode_fwd(st.value.test) is not None
             roles = {astx.dump(st.targets[0]) for st in binds
-                     if any(any(x is st for x in arm) for _i, fw, rv in mifs for arm in (fw, rv))}
+                     if _modesel(st) or any(any(x is st for x in arm) for _i, fw, rv in mifs for arm in (fw, rv))}
             for st in binds:
                 if astx.dump(st.targets[0]) not in roles:
                     continue
                 n += 1
+                if _modesel(st):
+                    # conditional-expression form: `v = A if mode == 'fwd' else B`
+                    n += 1
+                    if astx.dump(st.value.orelse) != _swap_dump(st.value.body):
+                        out.bad(f, st, f'{astx.src(st.targets[0])} is {astx.src(st.value.body)} in one mode and '
+                                f'{astx.src(st.value.orelse)} in the other: the two must be the same expression with '
+                                '_doutputs and _dresiduals exchanged', key='solvec-mirror')
+                    else:
+                        out.ok(f, st, 'mode-selected with swapped roles')
+                    continue
                 arm = None
                 for ifst, fwd, rev in mifs:
                     for mine, other in ((fwd, rev), (rev, fwd)):
@@ -830,17 +842,40 @@ def rhscache(repo, out):
     add = repo.func(RHSC, 'LinearRHSChecker.add_solution')
     get = repo.func(RHSC, 'LinearRHSChecker.get_solution')
     # writer: (rhs, solution, norm of rhs)
+    def _local_defs(name):
+        return [st.value for st in astx.walk_stmts(add.node.body) if isinstance(st, ast.Assign)
+                and len(st.targets) == 1 and astx.path(st.targets[0]) == name]
+
+    def _entry(e):
+        # the appended entry, also through a local name (`entry = (...)`; `caches.append(entry)`)
+        if isinstance(e, ast.Name):
+            ds = _local_defs(e.id)
+            if len(ds) == 1:
+                return ds[0]
+        return e
     apps = [c for c in astx.calls(add.node) if astx.callee_attr(c) == 'append' and len(c.args) == 1
-            and isinstance(c.args[0], ast.Tuple)]
-    if len(apps) != 1 or len(apps[0].args[0].elts) != 3:
+            and isinstance(_entry(c.args[0]), ast.Tuple)]
+    if len(apps) != 1 or len(_entry(apps[0].args[0]).elts) != 3:
         raise AnalysisError('add_solution: cache tuple not recognised')
-    elts = apps[0].args[0].elts
+    elts = _entry(apps[0].args[0]).elts
     params = [a.arg for a in add.node.args.args]
-    norm_defs = [st for st in astx.walk_stmts(add.node.body) if isinstance(st, ast.Assign)
-                 and astx.path(st.targets[0]) == astx.path(elts[2])]
-    if astx.path(elts[0]) != params[1] or astx.path(elts[1]) != params[2] or not norm_defs or \
-            not any(astx.mentions(d.value, params[1]) for d in norm_defs) or \
-            any(astx.mentions(d.value, params[2]) for d in norm_defs):
+
+    def _closure(e):
+        # parameter / local names the value of e is computed from (through every local definition)
+        seen, todo = set(), [e]
+        while todo:
+            x = todo.pop()
+            for nd in astx.walk(x):
+                if isinstance(nd, ast.Name) and nd.id not in seen:
+                    seen.add(nd.id)
+                    if nd.id not in (params[1], params[2]):
+                        todo.extend(_local_defs(nd.id))
+        return seen
+    norm_src = _closure(elts[2])
+    norm_is_norm = any(astx.callee_attr(c) in ('sqrt', 'norm') for x in [elts[2]] + [d for nm in norm_src
+                       for d in _local_defs(nm)] for c in astx.calls(x))
+    if astx.path(elts[0]) != params[1] or astx.path(elts[1]) != params[2] or isinstance(elts[2], ast.Constant) or \
+            params[1] not in norm_src or params[2] in norm_src or not norm_is_norm:
         out.bad(add, apps[0], 'cache entries must be (rhs, solution, norm of rhs) in this order', key='rhscache-writer')
         return
     out.ok(add, apps[0], 'entry = (rhs, solution, |rhs|)')
@@ -1534,6 +1569,21 @@ selftest(
     Twin('twin-solvec-mode-ne', 'openmdao/solvers/linear/linear_block_gs.py',
          "            if self._mode == 'fwd':\n                d_out_vec = system._doutputs\n            else:\n                d_out_vec = system._dresiduals\n\n            d_n = d_out_vec.asarray(copy=True)",
          "            if self._mode != 'fwd':\n                d_out_vec = system._dresiduals\n            else:\n                d_out_vec = system._doutputs\n\n            d_n = d_out_vec.asarray(copy=True)"),
+    Twin('twin-solvec-ifexp', 'openmdao/solvers/linear/linear_block_gs.py',
+         "            if self._mode == 'fwd':\n                d_out_vec = system._doutputs\n            else:\n                d_out_vec = system._dresiduals\n\n            d_n = d_out_vec.asarray(copy=True)",
+         "            d_out_vec = system._doutputs if mode == 'fwd' else system._dresiduals\n\n            d_n = d_out_vec.asarray(copy=True)"),
+    Mutant('solvec-ifexp-same-vector', 'openmdao/solvers/linear/linear_block_gs.py',
+           "            if self._mode == 'fwd':\n                d_out_vec = system._doutputs\n            else:\n                d_out_vec = system._dresiduals\n\n            d_n = d_out_vec.asarray(copy=True)",
+           "            d_out_vec = system._doutputs if mode == 'fwd' else system._doutputs\n\n            d_n = d_out_vec.asarray(copy=True)", 'C02.solvec'),
+    Twin('twin-rhscache-entry-local', 'openmdao/solvers/linear/linear_rhs_checker.py',
+         "            rhs_norm = np.sqrt(rhs_norm)\n            self._caches.append((rhs, solution, rhs_norm))\n",
+         "            entry = (rhs, solution, np.sqrt(rhs_norm))\n            caches = self._caches\n            caches.append(entry)\n"),
+    Mutant('rhscache-entry-local-swapped', 'openmdao/solvers/linear/linear_rhs_checker.py',
+           "            rhs_norm = np.sqrt(rhs_norm)\n            self._caches.append((rhs, solution, rhs_norm))\n",
+           "            entry = (solution, rhs, np.sqrt(rhs_norm))\n            caches = self._caches\n            caches.append(entry)\n", 'C02.rhscache'),
+    Mutant('rhscache-entry-norm-of-solution', 'openmdao/solvers/linear/linear_rhs_checker.py',
+           "            rhs_norm = np.sum(rhs**2)\n",
+           "            rhs_norm = np.sum(solution**2)\n", 'C02.rhscache'),
     Mutant('explicit-solve-group-rev-direction', 'openmdao/core/group.py',
            "                    with self._unscaled_context(outputs=[d_outputs], residuals=[d_residuals]):\n                        d_residuals.set_vec(d_outputs)",
            "                    with self._unscaled_context(outputs=[d_outputs], residuals=[d_residuals]):\n                        d_outputs.set_vec(d_residuals)", 'C02.explicit_solve'),
